@@ -4,9 +4,9 @@ From Coq Require Import List Bool Arith.
 From PAFC06 Require Import Model Proofs Proofs2 Proofs3.
 Import ListNotations.
 
-Definition cD : cfg := mkcfg Drawer 0 false false true.    (* Drawer, folder kept, no samples table *)
-Definition cDz : cfg := mkcfg Drawer 0 true true true.     (* Drawer, folder removed after zipping, samples table *)
-Definition cL : cfg := mkcfg LBFGS 2 true true true.       (* LBFGS, two update blocks *)
+Definition cD : cfg := mkcfg Drawer 0 false false true false.    (* Drawer, folder kept, no samples table *)
+Definition cDz : cfg := mkcfg Drawer 0 true true true false.     (* Drawer, folder removed after zipping, samples table *)
+Definition cL : cfg := mkcfg LBFGS 2 true true true false.       (* LBFGS, two update blocks *)
 
 Fixpoint index_of (p : op -> bool) (l : list op) : nat :=
   match l with [] => 0 | o :: l' => if p o then 0 else S (index_of p l') end.
@@ -104,7 +104,34 @@ Proof.
   exists (index_of (is_w Time) (plan_ops current cD 0 [] empty_fs)). vm_compute. reflexivity.
 Qed.
 
-(* the same five histories on the repaired model end well *)
+(* (resume, library default check_likelihood_function = true) a truncated samples_summary.json stops every later run;
+   an interrupted LBFGS fit with an intact summary fails the figure-of-merit sanity check for ever *)
+Definition cDk : cfg := mkcfg Drawer 0 true false true true.
+Definition cLk : cfg := mkcfg LBFGS 2 true false true true.
+
+Lemma resume_refuted_summary :
+  exists (k : nat),
+    let s1 := run_crash current cDk 0 [] k VHalf empty_fs in
+    plan_out current cDk 1 [] s1 = inl JSONDecode /\ plan_out current cDk 2 [] (run_full current cDk 1 [] s1) = inl JSONDecode.
+Proof.
+  exists (index_of (is_w Summary) (plan_ops current cDk 0 [] empty_fs)). vm_compute. split; reflexivity.
+Qed.
+
+Lemma resume_refuted_lbfgs_check :
+  exists (k : nat),
+    let s1 := run_crash current cLk 0 [] k VBefore empty_fs in
+    plan_out current cLk 1 [] s1 = inl SearchExc /\ plan_out current cLk 2 [] (run_full current cLk 1 [] s1) = inl SearchExc.
+Proof.
+  exists (index_of (is_w Marker) (plan_ops current cLk 0 [] empty_fs)). vm_compute. split; reflexivity.
+Qed.
+
+Example repaired_summary_witness :
+  let k := index_of (is_w Summary) (plan_ops repaired cDk 0 [] empty_fs) in
+  let s1 := run_crash repaired cDk 0 [] k VHalf empty_fs in
+  plan_out repaired cDk 1 [] s1 = inr (mkres 1 (Some 1) false).
+Proof. vm_compute. reflexivity. Qed.
+
+(* the same histories on the repaired model end well *)
 Example repaired_zip_witness :
   let s0 := run_full repaired cD 0 [] empty_fs in
   let k := index_of (fun o => match o with OZTW => true | _ => false end) (plan_ops repaired cD 1 [] s0) in
@@ -117,3 +144,15 @@ Example repaired_lbfgs_witness :
   let s1 := run_crash repaired cL 0 [] k VBefore empty_fs in
   plan_out repaired cL 1 [] s1 = inr (mkres 1 (Some 1) true).
 Proof. vm_compute. reflexivity. Qed.
+
+(* non-vacuity of the history theorems: a stored result and a history with real crashes, repaired archive write *)
+Example repaired_history_witness :
+  let s0 := run_full repaired cDz 0 [] empty_fs in
+  stored cDz 0 s0 /\
+  stored cDz 0 (history repaired cDz 1 [([], Some (2, VEmpty)); ([], Some (17, VHalf)); ([], Some (30, VBefore)); ([], None)] s0).
+Proof. vm_compute. repeat split; reflexivity. Qed.
+
+Example reachable_state_is_invariant_and_recoverable :
+  let s := history current cL 0 [([], Some (12, VHalf)); ([], None)] empty_fs in
+  Inv current cL s /\ fz s <> ZPartial.
+Proof. split; [apply inv_reachable | vm_compute; discriminate]. Qed.
